@@ -2035,6 +2035,7 @@ func (h *handler) getPartitionLog(ctx context.Context, topic string, partition i
 
 	// Requests for other partitions proceed in parallel; only one goroutine
 	// per partition does the actual initialization.
+	ensured := false
 	for {
 		key := fmt.Sprintf("%s/%d", topic, partition)
 		result, err, _ := h.logInit.Do(key, func() (interface{}, error) {
@@ -2079,10 +2080,15 @@ func (h *handler) getPartitionLog(ctx context.Context, topic string, partition i
 			return plog, nil
 		})
 		if err != nil {
-			if errors.Is(err, metadata.ErrUnknownTopic) && h.autoCreateTopics {
+			// Auto-create and retry once. If the partition is still unknown
+			// afterwards the topic exists with fewer partitions (ensureTopic
+			// treats "already exists" as success); retrying again would spin
+			// forever, so report the error instead.
+			if errors.Is(err, metadata.ErrUnknownTopic) && h.autoCreateTopics && !ensured {
 				if err := h.ensureTopic(ctx, topic, partition); err != nil {
 					return nil, err
 				}
+				ensured = true
 				continue
 			}
 			return nil, err
